@@ -58,6 +58,7 @@ pub enum DomOp {
     MarkScriptAlreadyStarted(Handle),
     SetQuirksMode(QuirksMode),
     AssociateWithForm(Handle, Handle, Handle, Option<Handle>),
+    AttachShadow(Handle, Handle, Seq<Attribute>),
 }
 /// the handle the sink hands out for the k-th element it creates (ASSUMED: a new one each time)
 pub open spec fn fresh_handle(k: nat) -> Handle { Handle { id: Ghost(k) } }
